@@ -123,6 +123,14 @@ theorem C08_v1_output_reparses (e : Expr) (h : e.wf = true) :
   rw [scan_render _ hw (fmtV1g_guard_safe e h), toks_fmtV1g]
   exact parse_print e h
 
+/-- `<`, `>`, `!` applied to a negative number built as ONE literal (`negLit`, what the exporter
+produces): both printers keep the blank — `< -1`, never `<-1` — and the output re-parses. -/
+theorem C08_negative_literal_separated :
+    render (fmtV1 (.un .lss (negLit ['1']))) = ['<', ' ', '-', '1'] ∧
+    render (fmtV2 (.un .lss (negLit ['1']))) = ['<', ' ', '-', '1'] ∧
+    render (fmtV1 (.un .gtr (negLit ['1']))) = ['>', '-', '1'] ∧
+    (scan (render (fmtV1 (.un .lss (negLit ['1']))))).bind parseE = some (.un .lss (negLit ['1'])) := by decide
+
 /-! #### the OLD v1 policy (before fix ab8529a): kept as a record of why the guard is needed.
 `fmtV1g false` is the printer WITHOUT the guard; nothing below is about the current tree. -/
 
